@@ -159,6 +159,21 @@ structure Held where
   channel : Nat
 deriving Repr
 
+/-- a loaned request that was not sent yet (`RequestMutUninit` / `RequestMut`) -/
+structure QLoan where
+  label : Nat
+  rid : Nat
+  channel : Nat
+  chunk : Nat
+deriving Repr
+
+/-- a loaned response that was not sent yet (`ResponseMutUninit` / `ResponseMut`) -/
+structure RLoan where
+  label : Nat
+  aLabel : Nat                -- the active request it was loaned from
+  chunk : Nat
+deriving Repr
+
 structure Client where
   alive : Bool := true        -- the `Client` object exists
   ex : Bool := true           -- the shared state exists
@@ -170,6 +185,10 @@ structure Client where
   pendings : List Pending := []
   held : List Held := []
   usedLabels : List Nat := []   -- harness: labels of pending responses are not reused
+  loanCnt : Nat := 0          -- `loan_counter`: requests loaned and not yet sent
+  qloans : List QLoan := []
+  usedLoanLabels : List Nat := []
+  gSendCtr : Nat := 0         -- ghost: number of requests sent so far
 deriving Repr
 
 structure Active where
@@ -178,6 +197,7 @@ structure Active where
   connId : Option Nat
   msg : Msg                   -- the request
   loans : Nat := 0            -- shared_loan_counter
+  live : Bool := true         -- the `ActiveRequest` object exists (the record stays while responses loaned from it do)
   gSent : Nat := 0            -- ghost: responses sent so far
 deriving Repr
 
@@ -187,6 +207,8 @@ structure Server where
   slot : Nat := 0
   loanPerReq : Nat
   actives : List Active := []
+  rloans : List RLoan := []
+  usedLoanLabels : List Nat := []
   usedLabels : List Nat := []   -- harness: labels of active requests are not reused
   gRecvReq : List (Nat × Nat) := []  -- ghost: (client, request id) of every active request handed out
 deriving Repr
@@ -805,7 +827,7 @@ def clientDestroyIfUnreferenced (w : World) (c : Nat) : World :=
   match getCl w c with
   | none => w
   | some C =>
-    if C.alive || !C.pendings.isEmpty || !C.held.isEmpty || !C.ex then w
+    if C.alive || !C.pendings.isEmpty || !C.held.isEmpty || !C.qloans.isEmpty || !C.ex then w
     else
       let w := { setCl w c { C with ex := false } with clientReg := w.clientReg.remove C.slot }
       portDestroy w (cid c)
@@ -828,6 +850,12 @@ inductive Op where
   | cserver (s : Nat) (loanPerReq : Option Nat)
   | dserver (s : Nat)
   | send (c r tag : Nat)
+  | qloan (c l : Nat)
+  | qsend (c l r tag : Nat)
+  | qdrop (c l : Nat)
+  | rloan (s a l : Nat)
+  | rsend (s l tag : Nat)
+  | rdrop (s l : Nat)
   | recvreq (s a : Nat)
   | respond (s a tag : Nat)
   | dactive (s a : Nat)
@@ -848,7 +876,10 @@ def finishPanic (w0 : World) (r : World × String) : World × String :=
   if r.1.panicked then ({ w0 with panicked := true }, "PANIC") else r
 
 def findPending (C : Client) (r : Nat) : Option Pending := C.pendings.find? (·.label = r)
-def findActive (S : Server) (a : Nat) : Option Active := S.actives.find? (·.label = a)
+/-- the `ActiveRequest` object with label `a` -/
+def findActive (S : Server) (a : Nat) : Option Active := S.actives.find? (fun x => x.label = a && x.live)
+/-- the record of active request `a`, also when only loaned responses keep it -/
+def findActiveAny (S : Server) (a : Nat) : Option Active := S.actives.find? (·.label = a)
 
 /-- `Sender::get_connection_id_of` -/
 def connIdOf : List (Option Pid) → Pid → Nat → Option Nat
@@ -1020,7 +1051,8 @@ def opDServer (w : World) (s : Nat) : World × String :=
 
 /-- a `PendingResponse` comes into being -/
 def Client.addPending (C : Client) (P : Pending) : Client :=
-  { C with activeCnt := C.activeCnt + 1, pendings := C.pendings ++ [P], usedLabels := P.label :: C.usedLabels }
+  { C with activeCnt := C.activeCnt + 1, pendings := C.pendings ++ [P], usedLabels := P.label :: C.usedLabels,
+           loanCnt := C.loanCnt - 1, gSendCtr := C.gSendCtr + 1 }
 
 /-- `RequestMut::send` -> `ClientSharedState::send_request` once the limit check has passed:
 `update_connections`, `prepare_channel_to_receive_responses`, `deliver_offset` -/
@@ -1034,10 +1066,49 @@ def sendRequest (w : World) (c r ch rid chunk tag : Nat) : World × String :=
     let w := setCl w c (C.addPending { label := r, rid := rid, channel := ch, chunk := chunk, tag := tag })
     let w := rcvMapAll w (cid c) ch (fun x => x.setState rid)
     let w := retrieveReturned w (cid c)
-    let msg : Msg := { client := c, channel := ch, rid := rid, tag := tag }
+    let msg : Msg := { client := c, channel := ch, rid := rid, tag := tag, gSeq := C.gSendCtr }
     let r := deliverAll w (cid c) 0 { chunk := chunk, msg := msg } (sndConns w (cid c)) 0
     (r.1, s!"ok:{r.2}")
   | none => (w, "none")
+
+/-- `Client::loan_chunk`: client loan limit, `Sender::allocate`, channel id, request id.  Returns the loan
+or the refusal. -/
+def clientLoan (w : World) (c l : Nat) : World × Option QLoan × String :=
+  match getCl w c with
+  | none => (w, none, "none")
+  | some C0 =>
+    if C0.loanCnt = w.cfg.maxLoans then (w, none, "err:loan:ExceedsMaxLoans") else
+    let w := retrieveReturned w (cid c)
+    match getSnd w (cid c) with
+    | none => (w, none, "none")
+    | some S =>
+      match S.allocate with
+      | (_, .exceedsMaxLoans) => (w, none, "err:loan:ExceedsMaxLoans")
+      | (_, .outOfMemory) => (w, none, "err:loan:OutOfMemory")
+      | (_, .corrupted) => ({ w with panicked := true }, none, "PANIC")
+      | (S, .ok chunk) =>
+        let w := setSnd w (cid c) S
+        match C0.chanIds with
+        | [] => ({ w with panicked := true }, none, "PANIC")
+        | ch :: ids =>
+          (setCl w c { C0 with chanIds := ids, ridCtr := C0.ridCtr + 1, loanCnt := C0.loanCnt + 1 },
+           some { label := l, rid := C0.ridCtr, channel := ch, chunk := chunk }, "ok")
+
+/-- a `RequestMut(Uninit)` is dropped unsent: `release_request(false)`, `return_loaned_chunk` -/
+def clientReleaseLoan (w : World) (c : Nat) (q : QLoan) : World :=
+  match getCl w c with
+  | none => w
+  | some C =>
+    let w := setCl w c { C with chanIds := C.chanIds ++ [q.channel], loanCnt := C.loanCnt - 1 }
+    sndReturnLoan w (cid c) q.chunk
+
+/-- `RequestMut::send`: the active-request limit is checked before any side effect -/
+def clientSendLoan (w : World) (c : Nat) (q : QLoan) (r tag : Nat) : World × String :=
+  match getCl w c with
+  | none => (w, "none")
+  | some C =>
+    if C.maxActive ≤ C.activeCnt then (clientReleaseLoan w c q, "err:send:ExceedsMaxActiveRequests")
+    else sendRequest w c r q.channel q.rid q.chunk tag
 
 /-- `Client::loan_uninit` + `write_payload` + `RequestMut::send` -/
 def opSend (w : World) (c r tag : Nat) : World × String :=
@@ -1046,27 +1117,47 @@ def opSend (w : World) (c r tag : Nat) : World × String :=
   | some C0 =>
     if !C0.alive then (w, "none") else
     if C0.usedLabels.contains r then (w, "dup") else
-    -- `Client::loan_chunk`: `Sender::allocate`
-    let w := retrieveReturned w (cid c)
-    match getSnd w (cid c) with
+    match clientLoan w c 0 with
+    | (w, none, out) => (w, out)
+    | (w, some q, _) => clientSendLoan w c q r tag
+
+/-- `Client::loan_uninit`, the `RequestMutUninit` is kept under label `l` -/
+def opQLoan (w : World) (c l : Nat) : World × String :=
+  match getCl w c with
+  | none => (w, "none")
+  | some C0 =>
+    if !C0.alive then (w, "none") else
+    if C0.usedLoanLabels.contains l then (w, "dup") else
+    match clientLoan w c l with
+    | (w, none, out) => (w, out)
+    | (w, some q, _) =>
+      match getCl w c with
+      | none => (w, "none")
+      | some C => (setCl w c { C with qloans := C.qloans ++ [q], usedLoanLabels := l :: C.usedLoanLabels }, "ok")
+
+/-- `write_payload` + `RequestMut::send` of the kept loan `l` -/
+def opQSend (w : World) (c l r tag : Nat) : World × String :=
+  match getCl w c with
+  | none => (w, "none")
+  | some C =>
+    match C.qloans.find? (·.label = l) with
     | none => (w, "none")
-    | some S =>
-      match S.allocate with
-      | (_, .exceedsMaxLoans) => (w, "err:loan:ExceedsMaxLoans")
-      | (_, .outOfMemory) => (w, "err:loan:OutOfMemory")
-      | (_, .corrupted) => ({ w with panicked := true }, "PANIC")
-      | (S, .ok chunk) =>
-        let w := setSnd w (cid c) S
-        match C0.chanIds with
-        | [] => ({ w with panicked := true }, "PANIC")
-        | ch :: ids =>
-          let rid := C0.ridCtr
-          let C := { C0 with chanIds := ids, ridCtr := C0.ridCtr + 1 }
-          if C.maxActive ≤ C.activeCnt then
-            -- the `RequestMut` is dropped: `release_request`, `return_loaned_chunk`
-            let w := setCl w c { C with chanIds := C.chanIds ++ [ch] }
-            (setSnd w (cid c) (S.returnLoan chunk), "err:send:ExceedsMaxActiveRequests")
-          else sendRequest (setCl w c C) c r ch rid chunk tag
+    | some q =>
+      if C.usedLabels.contains r then (w, "dup") else
+      let w := setCl w c { C with qloans := C.qloans.filter (·.label ≠ l) }
+      let res := clientSendLoan w c q r tag
+      (clientDestroyIfUnreferenced res.1 c, res.2)
+
+/-- the kept loan `l` is dropped -/
+def opQDrop (w : World) (c l : Nat) : World × String :=
+  match getCl w c with
+  | none => (w, "none")
+  | some C =>
+    match C.qloans.find? (·.label = l) with
+    | none => (w, "none")
+    | some q =>
+      let w := setCl w c { C with qloans := C.qloans.filter (·.label ≠ l) }
+      (clientDestroyIfUnreferenced (clientReleaseLoan w c q) c, "ok")
 
 /-- `Server::receive` -/
 def opRecvReq (w : World) (s a : Nat) : World × String :=
@@ -1116,6 +1207,21 @@ def sendResponse (w : World) (s : Nat) (A : Active) (chunk tag : Nat) : World ×
   let w3 := respondDeliver w2 s A { chunk := chunk, msg := responseMsg w1 s A tag }
   (sndReturnLoan w3 (sid s) chunk, "ok")
 
+/-- `ActiveRequest::loan_chunk`: `increment_loan_counter`, `Sender::allocate` (a failed allocation undoes the
+reservation).  Returns the chunk or the refusal. -/
+def activeLoan (w : World) (s a : Nat) (loanPerReq : Nat) (A : Active) : World × Option Nat × String :=
+  if loanPerReq ≤ A.loans then (w, none, "err:loan:ExceedsMaxLoans") else
+  let w := updActive w s a fun x => { x with loans := x.loans + 1 }
+  let w := retrieveReturned w (sid s)
+  match getSnd w (sid s) with
+  | none => (w, none, "none")
+  | some S =>
+    match S.allocate with
+    | (_, .exceedsMaxLoans) => (updActive w s a fun x => { x with loans := x.loans - 1 }, none, "err:loan:ExceedsMaxLoans")
+    | (_, .outOfMemory) => (updActive w s a fun x => { x with loans := x.loans - 1 }, none, "err:loan:OutOfMemory")
+    | (_, .corrupted) => ({ w with panicked := true }, none, "PANIC")
+    | (S, .ok chunk) => (setSnd w (sid s) S, some chunk, "ok")
+
 /-- `ActiveRequest::loan_uninit` + `write_payload` + `ResponseMut::send` -/
 def opRespond (w : World) (s a tag : Nat) : World × String :=
   match getSv w s with
@@ -1124,21 +1230,63 @@ def opRespond (w : World) (s a tag : Nat) : World × String :=
     match findActive V0 a with
     | none => (w, "none")
     | some A =>
-      -- `ActiveRequest::loan_chunk`: `increment_loan_counter`, `Sender::allocate`
-      if V0.loanPerReq ≤ A.loans then (w, "err:loan:ExceedsMaxLoans") else
-      let w := updActive w s a fun x => { x with loans := x.loans + 1 }
-      let w := retrieveReturned w (sid s)
-      match getSnd w (sid s) with
-      | none => (w, "none")
-      | some S =>
-        match S.allocate with
-        -- a failed allocation undoes the reservation made by `increment_loan_counter`
-        | (_, .exceedsMaxLoans) => (updActive w s a fun x => { x with loans := x.loans - 1 }, "err:loan:ExceedsMaxLoans")
-        | (_, .outOfMemory) => (updActive w s a fun x => { x with loans := x.loans - 1 }, "err:loan:OutOfMemory")
-        | (_, .corrupted) => ({ w with panicked := true }, "PANIC")
-        | (S, .ok chunk) => sendResponse (setSnd w (sid s) S) s A chunk tag
+      match activeLoan w s a V0.loanPerReq A with
+      | (w, none, out) => (w, out)
+      | (w, some chunk, _) => sendResponse w s A chunk tag
 
-/-- `ActiveRequest::drop`: `release_offset`, `finish` -/
+/-- the record of an active request whose object is gone disappears with its last loaned response -/
+def reapActive (w : World) (s a : Nat) : World :=
+  match getSv w s with
+  | none => w
+  | some V => setSv w s { V with actives := V.actives.filter fun x => !(x.label = a && !x.live && x.loans = 0) }
+
+/-- `ActiveRequest::loan_uninit`, the `ResponseMutUninit` is kept under label `l` -/
+def opRLoan (w : World) (s a l : Nat) : World × String :=
+  match getSv w s with
+  | none => (w, "none")
+  | some V0 =>
+    match findActive V0 a with
+    | none => (w, "none")
+    | some A =>
+      if V0.usedLoanLabels.contains l then (w, "dup") else
+      match activeLoan w s a V0.loanPerReq A with
+      | (w, none, out) => (w, out)
+      | (w, some chunk, _) =>
+        match getSv w s with
+        | none => (w, "none")
+        | some V =>
+          (setSv w s { V with rloans := V.rloans ++ [{ label := l, aLabel := a, chunk := chunk }],
+                              usedLoanLabels := l :: V.usedLoanLabels }, "ok")
+
+/-- `write_payload` + `ResponseMut::send` of the kept loan `l` (the active request object may be gone) -/
+def opRSend (w : World) (s l tag : Nat) : World × String :=
+  match getSv w s with
+  | none => (w, "none")
+  | some V =>
+    match V.rloans.find? (·.label = l) with
+    | none => (w, "none")
+    | some L =>
+      match findActiveAny V L.aLabel with
+      | none => (w, "none")
+      | some A =>
+        let w := setSv w s { V with rloans := V.rloans.filter (·.label ≠ l) }
+        let res := sendResponse w s A L.chunk tag
+        (serverDestroyIfUnreferenced (reapActive res.1 s L.aLabel) s, res.2)
+
+/-- the kept loan `l` is dropped: `shared_loan_counter`, `return_loaned_chunk` -/
+def opRDrop (w : World) (s l : Nat) : World × String :=
+  match getSv w s with
+  | none => (w, "none")
+  | some V =>
+    match V.rloans.find? (·.label = l) with
+    | none => (w, "none")
+    | some L =>
+      let w := setSv w s { V with rloans := V.rloans.filter (·.label ≠ l) }
+      let w := updActive w s L.aLabel fun x => { x with loans := x.loans - 1 }
+      let w := sndReturnLoan w (sid s) L.chunk
+      (serverDestroyIfUnreferenced (reapActive w s L.aLabel) s, "ok")
+
+/-- `ActiveRequest::drop`: `release_offset`, `finish`; the record stays while responses loaned from it exist -/
 def opDActive (w : World) (s a : Nat) : World × String :=
   match getSv w s with
   | none => (w, "none")
@@ -1146,7 +1294,8 @@ def opDActive (w : World) (s a : Nat) : World × String :=
     match findActive V a with
     | none => (w, "none")
     | some A =>
-      let w := setSv w s { V with actives := V.actives.filter (·.label ≠ a) }
+      let w := updActive w s a fun x => { x with live := false }
+      let w := reapActive w s a
       let w := rcvRelease w (sid s) A.det
       let w := activeFinish w s A.connId A.msg.channel A.msg.rid
       (serverDestroyIfUnreferenced w s, "ok")
@@ -1284,6 +1433,12 @@ def step (w : World) : Op → World × String
   | .cserver s ml => opCServer w s ml
   | .dserver s => opDServer w s
   | .send c r tag => opSend w c r tag
+  | .qloan c l => opQLoan w c l
+  | .qsend c l r tag => opQSend w c l r tag
+  | .qdrop c l => opQDrop w c l
+  | .rloan s a l => opRLoan w s a l
+  | .rsend s l tag => opRSend w s l tag
+  | .rdrop s l => opRDrop w s l
   | .recvreq s a => opRecvReq w s a
   | .respond s a tag => opRespond w s a tag
   | .dactive s a => opDActive w s a
